@@ -10,6 +10,7 @@ import (
 	"github.com/olric-data/olric/internal/cluster/partitions"
 	"github.com/olric-data/olric/internal/discovery"
 	"github.com/olric-data/olric/internal/verif/clustermc"
+	"github.com/olric-data/olric/internal/verif/confx"
 	"github.com/olric-data/olric/internal/verif/core"
 	"github.com/olric-data/olric/internal/verif/sched"
 	"github.com/olric-data/olric/internal/verif/simcluster"
@@ -355,6 +356,93 @@ func (s *c13Sys) Canon() string {
 	return b.String()
 }
 
+// c13Table: the routing table of the coordinator, per partition (primary owners, backup owners).
+func c13Table(s *c13Sys) [][2][]string {
+	t := s.liveByAge()[0].DB.VerifRT().VerifTable()
+	var out [][2][]string
+	for p := uint64(0); p < s.P.Opts.Partitions; p++ {
+		e := [2][]string{{}, {}}
+		for _, o := range t[p].Owners {
+			e[0] = append(e[0], o.Name)
+		}
+		for _, o := range t[p].Backups {
+			e[1] = append(e[1], o.Name)
+		}
+		out = append(out, e)
+	}
+	return out
+}
+
+// c13Traces: membership histories (join / graceful leave / crash of the oldest, youngest or a
+// middle member; no stored data) with the table the simulated cluster settles on after every event,
+// for replay on real members (child processes under the same addresses, real memberlist with its
+// failure detector, real timers).
+func c13Traces(max int) []confx.Trace {
+	var out []confx.Trace
+	type cf struct{ n0, r int }
+	var all []confx.Trace
+	for _, c := range []cf{{2, 2}, {1, 1}, {3, 2}} {
+		p := &c13Params{Name: "conformance", MaxMembers: 4, Opts: simcluster.Opts{N: c.n0, Replicas: c.r, WriteQ: 1, ReadQ: 1, Partitions: 7}}
+		usable := func(e clustermc.Ev) bool { return e.K == "join" || e.K == "leave" || e.K == "crash" }
+		var paths [][]clustermc.Ev
+		for _, e := range c13New(p).Events() {
+			if !usable(e) {
+				continue
+			}
+			paths = append(paths, []clustermc.Ev{e})
+			s := c13New(p)
+			s.Apply(e)
+			for _, e2 := range s.Events() {
+				if usable(e2) {
+					paths = append(paths, []clustermc.Ev{e, e2})
+				}
+			}
+		}
+		for _, path := range paths {
+			s := c13New(p)
+			t := confx.Trace{ID: fmt.Sprintf("c13-n%d-r%d-%d", c.n0, c.r, len(all)), Members: c.n0, R: c.r, P: 7, Entry: "membership", Table0: c13Table(s)}
+			ok := true
+			for _, e := range path {
+				before := map[int]bool{}
+				for _, m := range s.Cl.Live() {
+					before[m.Idx] = true
+				}
+				if len(s.Apply(e)) > 0 {
+					ok = false
+					break
+				}
+				after := map[int]bool{}
+				for _, m := range s.Cl.Live() {
+					after[m.Idx] = true
+				}
+				idx := -1
+				for i := range before {
+					if !after[i] {
+						idx = i
+					}
+				}
+				for i := range after {
+					if !before[i] {
+						idx = i
+					}
+				}
+				t.Mem = append(t.Mem, confx.MemStep{Op: e.K, Idx: idx, Table: c13Table(s)})
+			}
+			if ok {
+				all = append(all, t)
+			}
+		}
+	}
+	if max <= 0 || len(all) <= max {
+		return all
+	}
+	stride := (len(all) + max - 1) / max
+	for i := 0; i < len(all); i += stride {
+		out = append(out, all[i])
+	}
+	return out
+}
+
 func c13Specs(tier string) []*clustermc.Spec {
 	quick := tier != "thorough"
 	type cf struct {
@@ -393,7 +481,11 @@ func init() {
 	core.Register(&core.Check{ID: "C13", Level: "model_checking", Run: func(c *core.Ctx) {
 		c.Cov["rule"] = "BFS over membership events {join, graceful leave / crash+detection / crash+restart-before-detection of the oldest (coordinator), youngest or a middle member, re-join of a stopped member under its address} from initial clusters of 1-3 members, replica counts 1-3, 7 or 13 partitions, with and without stored data; after each event the cluster is stabilised (all events delivered, routing pushes and balancer passes to a fixpoint) and the routing-table oracle is evaluated on every member and through a cluster client; non-trivial = distinct stabilised states with at least two live members"
 		clustermc.RunFamily(c, "C13")
-		c.Cov["traces_validated_against_impl"] = 0
-		c.Assumef("membership comes from the fake discovery layer (gossip reaches everybody atomically; events are delivered in member order); conformance of the fake against real memberlist is a separate replay")
+		max := 6
+		if c.Tier == "thorough" {
+			max = 40
+		}
+		confx.Replay(c, c13Traces(max))
+		c.Assumef("membership comes from the fake discovery layer (gossip reaches everybody atomically; events are delivered in member order); it is bound to the real stack by replaying membership histories (join / leave / SIGKILL of child-process members under the same addresses, real memberlist and failure detector, real timers) and comparing the routing table the real cluster settles on with the simulated one after every event")
 	}})
 }
